@@ -5,10 +5,19 @@ import NetaddrVerif.Driver.C08
 
 Family token: `4`, `6`, `48:<dialect>`, `64:<dialect>` (dialect token as in Driver/C08) or
 `G:<word_size>:<num_words>:<hex of sep>` for the generic codecs of netaddr.strategy.
-Errors are printed as `!` (the property only says "raises"). -/
+Integer arguments of the strategy-level ops (`c15_enc`, words of `c15_dec` / `c15_valid`) are
+signed decimals and go to the `…Z` functions of Model/Codec (sign test of the code + the `Nat`
+function); object-level values (`c15_obj`) are non-negative.  `c15_b85t` is `base85_to_ipv6`
+as text.  Errors are printed as `!<Err.tag>` (the exception class; the harness prints
+`common.errname`, with every class outside the model's list as `other`). -/
 namespace NV.Driver.C15
 open NV NV.Proto NV.Gen NV.Codec
-open NV.Driver.C08 (showR showNats showBytes parseDialect parseOptStr)
+open NV.Driver.C08 (showNats showBytes parseDialect parseOptStr)
+
+/-- a result, or `!` + the exception class tag -/
+def showR {α} (f : α → String) : R α → String
+  | .ok a => f a
+  | .error e => "!" ++ e.tag
 
 structure Fam where
   kind : Nat
@@ -32,12 +41,22 @@ def parseFam (tok : String) : Option Fam :=
 def famWords (f : Fam) (v : Nat) : R (List Nat) :=
   if f.kind = 4 then V4.intToWords v else intToWords v f.ws f.nw
 
-def famWordsToInt (f : Fam) (ws : List Nat) : R Nat :=
-  if f.kind = 4 then V4.wordsToInt ws else wordsToInt ws f.ws f.nw
+def famWordsZ (f : Fam) (v : Int) : R (List Nat) :=
+  if f.kind = 4 then V4.intToWordsZ v else intToWordsZ v f.ws f.nw
+
+def famWordsToIntZ (f : Fam) (ws : List Int) : R Nat :=
+  if f.kind = 4 then V4.wordsToIntZ ws else wordsToIntZ ws f.ws f.nw
 
 def famPacked (f : Fam) (v : Nat) : Option (R (List Nat)) :=
   if f.kind = 4 then some (V4.intToPacked v) else if f.kind = 6 then some (V6.intToPacked v)
   else if f.kind = 48 then some (E48.intToPacked v) else if f.kind = 64 then some (E64.intToPacked v) else none
+
+def famPackedZ (f : Fam) (v : Int) : Option (R (List Nat)) :=
+  if f.kind = 4 then some (V4.intToPackedZ v) else if f.kind = 6 then some (V6.intToPackedZ v)
+  else if f.kind = 48 then some (E48.intToPackedZ v) else if f.kind = 64 then some (E64.intToPackedZ v) else none
+
+def famArpaZ (f : Fam) (v : Int) : Option (R (List Char)) :=
+  if f.kind = 4 then some (V4.intToArpaZ v) else if f.kind = 6 then some (V6.intToArpaZ v) else none
 
 def famUnpack (f : Fam) (bs : List Nat) : Option (R Nat) :=
   if f.kind = 4 then some (V4.packedToInt bs) else if f.kind = 6 then some (V6.packedToInt bs)
@@ -50,7 +69,7 @@ def optField {α} (f : α → String) : Option (R α) → String
   | none => "-"
   | some r => showR f r
 
-def parseNats (tok : String) : Option (List Nat) := do (← parseList tok).mapM (·.toNat?)
+def parseInts (tok : String) : Option (List Int) := do (← parseList tok).mapM parseInt
 
 def parseBytes (tok : String) : Option (List Nat) :=
   if tok.startsWith "b:" then hexBytes (tok.drop 2).toString.toList else none
@@ -58,10 +77,10 @@ def parseBytes (tok : String) : Option (List Nat) :=
 def handle (op : String) (args : List String) : Option String :=
   match op, args with
   | "c15_enc", [fam, v] => do
-    let f ← parseFam fam; let v ← v.toNat?
-    pure (" ".intercalate [showR showNats (famWords f v), optField showBytes (famPacked f v),
-      showR showStr (intToBits v f.ws f.nw f.sep), showR showStr (intToBin v f.width),
-      optField showStr (famArpa f v)])
+    let f ← parseFam fam; let v ← parseInt v
+    pure (" ".intercalate [showR showNats (famWordsZ f v), optField showBytes (famPackedZ f v),
+      showR showStr (intToBitsZ v f.ws f.nw f.sep), showR showStr (intToBinZ v f.width),
+      optField showStr (famArpaZ f v)])
   | "c15_obj", [fam, v, sep] => do
     -- object-level accessors: IPAddress / EUI (EUI: module default dialect for words / bits())
     let f ← parseFam fam; let v ← v.toNat?; let sep ← parseOptStr sep
@@ -76,7 +95,7 @@ def handle (op : String) (args : List String) : Option String :=
   | "c15_dec", [kind, fam, payload] => do
     let f ← parseFam fam
     match kind with
-    | "words" => do pure (showR toString (famWordsToInt f (← parseNats payload)))
+    | "words" => do pure (showR toString (famWordsToIntZ f (← parseInts payload)))
     | "packed" => do pure (optField toString (famUnpack f (← parseBytes payload)))
     | "bits" => do pure (showR toString (bitsToInt (← parseStr payload) f.width f.sep))
     | "bin" => do pure (showR toString (binToInt (← parseStr payload) f.width))
@@ -84,12 +103,13 @@ def handle (op : String) (args : List String) : Option String :=
   | "c15_valid", [kind, fam, payload] => do
     let f ← parseFam fam
     match kind with
-    | "words" => do pure (showBool (validWords (← parseNats payload) f.ws f.nw))
+    | "words" => do pure (showBool (validWordsZ (← parseInts payload) f.ws f.nw))
     | "bits" => do pure (showBool (validBits (← parseStr payload) f.width f.sep))
     | "bin" => do pure (showBool (validBin (← parseStr payload) f.width))
     | _ => none
   | "c15_b85e", [v] => do pure (showStr (ipv6ToBase85 (← v.toNat?)))
   | "c15_b85d", [s] => do pure (showR toString (base85ToIpv6 (← parseStr s)))
+  | "c15_b85t", [s] => do pure (showR showStr (base85ToIpv6Text .platform (← parseStr s)))
   | _, _ => none
 
 end NV.Driver.C15
